@@ -34,6 +34,16 @@ def IsWalk (E : List Edge) : List Nat → Prop
   | a :: b :: r => Adj E a b ∧ IsWalk E (b :: r)
   | _ => True
 
+instance (E : List Edge) (a b : Nat) : Decidable (Adj E a b) := by unfold Adj; infer_instance
+
+instance IsWalk.decidable (E : List Edge) : (p : List Nat) → Decidable (IsWalk E p)
+  | [] => isTrue trivial
+  | [_] => isTrue trivial
+  | a :: b :: r =>
+    match IsWalk.decidable E (b :: r) with
+    | isTrue h => if h' : Adj E a b then isTrue ⟨h', h⟩ else isFalse (fun hw => h' hw.1)
+    | isFalse h => isFalse (fun hw => h hw.2)
+
 /-- the inner node `b` of the segment `a - b - c` blocks given `Z`: a collider (`a → b ← c`) that is not in `Z` and has
     no descendant in `Z`, or a non-collider that is in `Z` -/
 def BlockedAt (E : List Edge) (Z : List Nat) (a b c : Nat) : Prop :=
@@ -46,6 +56,8 @@ def Blocked (E : List Edge) (Z : List Nat) : List Nat → Prop
 
 /-- `p` goes from `x` to `y` -/
 def FromTo (p : List Nat) (x y : Nat) : Prop := p.head? = some x ∧ p.getLast? = some y
+
+instance (p : List Nat) (x y : Nat) : Decidable (FromTo p x y) := by unfold FromTo; infer_instance
 
 /-- `Z` d-separates `x` and `y` in `E` (walk form): every walk from `x` to `y` is blocked -/
 def DSepWalks (E : List Edge) (x y : Nat) (Z : List Nat) : Prop :=
@@ -684,5 +696,146 @@ theorem simple_path_length {G : Graph} (hwf : G.WF) {E' : List Edge} (hE : ∀ e
   · omega
 
 end Exec
+
+/-! ### back-door paths: paths of the full graph whose first arrow points into `x` -/
+
+/-- the path starts `x, b, …` with the arrow `b → x` -/
+def IsBackdoor (E : List Edge) (x : Nat) (p : List Nat) : Prop := ∃ b r, p = x :: b :: r ∧ (b, x) ∈ E
+
+/-- every back-door path from `x` to `y` (a path of `E` without repeated node whose first arrow points into `x`) is
+    blocked by `Z` — blocking judged in the full graph `E` -/
+def BackdoorBlocked (E : List Edge) (x y : Nat) (Z : List Nat) : Prop :=
+  ∀ p, IsWalk E p → FromTo p x y → p.Nodup → IsBackdoor E x p → Blocked E Z p
+
+/-- the graph without the arrows leaving `x` -/
+abbrev cutOut (E : List Edge) (x : Nat) : List Edge := E.filter (fun e => e.1 != x)
+
+section Backdoor
+variable {E : List Edge} {Z : List Nat} {x : Nat}
+
+/-- the graph without the arrows leaving `x` -/
+local notation "Ex" => cutOut E x
+
+theorem mem_filter_out {a b : Nat} : (a, b) ∈ Ex ↔ (a, b) ∈ E ∧ a ≠ x := by
+  simp [cutOut, List.mem_filter]
+
+/-- a directed path either avoids the arrows leaving `x` or passes through `x` -/
+theorem rtg_filter_out {v d : Nat} (h : ReflTransGen (edgeRel E) v d) :
+    ReflTransGen (edgeRel Ex) v d ∨ ReflTransGen (edgeRel E) x d := by
+  induction h using ReflTransGen.head_induction_on with
+  | refl => exact .inl .refl
+  | @head a b hab hbd ih =>
+    by_cases ha : a = x
+    · exact .inr (ha ▸ .head hab hbd)
+    · rcases ih with h | h
+      · exact .inl (.head (mem_filter_out.mpr ⟨hab, ha⟩) h)
+      · exact .inr h
+
+theorem desc_filter_out (hx : x ∉ Z) (hnd : ∀ z ∈ Z, ¬ IsDesc E x z) {v : Nat} :
+    (∀ d, IsDesc E v d → d ∉ Z) ↔ (∀ d, IsDesc Ex v d → d ∉ Z) := by
+  constructor
+  · intro h d hd
+    exact h d ⟨hd.1, rtg_mono (fun e he => (List.mem_filter.mp he).1) hd.2⟩
+  · intro h d hd hdZ
+    rcases rtg_filter_out (x := x) hd.2 with h' | h'
+    · exact h d ⟨hd.1, h'⟩ hdZ
+    · exact hnd d hdZ ⟨fun hdx => hx (hdx ▸ hdZ), h'⟩
+
+theorem blockedAt_filter_out (hx : x ∉ Z) (hnd : ∀ z ∈ Z, ¬ IsDesc E x z) {a v c : Nat}
+    (ha : (a, v) ∈ E ↔ (a, v) ∈ Ex) (hc : c ≠ x) : BlockedAt E Z a v c ↔ BlockedAt Ex Z a v c := by
+  have hc' : (c, v) ∈ E ↔ (c, v) ∈ Ex := by rw [mem_filter_out]; tauto
+  unfold BlockedAt
+  rw [← ha, ← hc', desc_filter_out hx hnd]
+
+theorem blocked_filter_out (hx : x ∉ Z) (hnd : ∀ z ∈ Z, ¬ IsDesc E x z) (q : List Nat) : x ∉ q →
+    ∀ a, (∀ v, q.head? = some v → ((a, v) ∈ E ↔ (a, v) ∈ Ex)) → (Blocked E Z (a :: q) ↔ Blocked Ex Z (a :: q)) := by
+  induction q with
+  | nil => intro _ a _; exact Iff.rfl
+  | cons v r ih =>
+    intro hxq a ha
+    match r, ih with
+    | [], _ => exact Iff.rfl
+    | c :: r, ih =>
+      have hvx : v ≠ x := fun h => hxq (h ▸ List.mem_cons_self ..)
+      have hcx : c ≠ x := fun h => hxq (h ▸ List.mem_cons_of_mem _ (List.mem_cons_self ..))
+      have ih' := ih (fun h => hxq (List.mem_cons_of_mem _ h)) v (by
+        intro w hw
+        have : c = w := by simpa using hw
+        subst this
+        rw [mem_filter_out]; tauto)
+      show BlockedAt E Z a v c ∨ Blocked E Z (v :: c :: r) ↔ BlockedAt Ex Z a v c ∨ Blocked Ex Z (v :: c :: r)
+      rw [blockedAt_filter_out hx hnd (ha v rfl) hcx, ih']
+
+theorem isWalk_filter_out (q : List Nat) : x ∉ q → IsWalk E q → IsWalk Ex q := by
+  induction q with
+  | nil => intro _ _; trivial
+  | cons a r ih =>
+    intro hxq hw
+    match r, ih, hw with
+    | [], _, _ => trivial
+    | b :: r, ih, hw =>
+      have hax : a ≠ x := fun h => hxq (h ▸ List.mem_cons_self ..)
+      have hbx : b ≠ x := fun h => hxq (h ▸ List.mem_cons_of_mem _ (List.mem_cons_self ..))
+      refine ⟨?_, ih (fun h => hxq (List.mem_cons_of_mem _ h)) hw.2⟩
+      rcases hw.1 with h | h
+      · exact .inl (mem_filter_out.mpr ⟨h, hax⟩)
+      · exact .inr (mem_filter_out.mpr ⟨h, hbx⟩)
+
+theorem isWalk_mono {E' : List Edge} (hE : ∀ e ∈ E', e ∈ E) (q : List Nat) : IsWalk E' q → IsWalk E q := by
+  induction q with
+  | nil => intro _; trivial
+  | cons a r ih =>
+    intro hw
+    match r, ih, hw with
+    | [], _, _ => trivial
+    | b :: r, ih, hw =>
+      refine ⟨?_, ih hw.2⟩
+      rcases hw.1 with h | h
+      · exact .inl (hE _ h)
+      · exact .inr (hE _ h)
+
+/-- **Back-door paths.**  Provided `Z` holds no descendant of `x`: the paths from `x` in the graph without the arrows
+    leaving `x` are the back-door paths of the full graph, and `Z` blocks one in the one graph iff in the other. -/
+theorem dsepPaths_filter_iff_backdoor (hac : Acyclic E) {y : Nat} (hxy : x ≠ y) (hx : x ∉ Z)
+    (hnd : ∀ z ∈ Z, ¬ IsDesc E x z) : DSepPaths Ex x y Z ↔ BackdoorBlocked E x y Z := by
+  have hsub : ∀ e ∈ Ex, e ∈ E := fun e he => (List.mem_filter.mp he).1
+  constructor
+  · rintro h p hw hft hnodup ⟨b, r, rfl, hbx⟩
+    have hxq : x ∉ b :: r := (List.nodup_cons.mp hnodup).1
+    have hbx' : b ≠ x := fun h => hxq (h ▸ List.mem_cons_self ..)
+    have hw' : IsWalk Ex (x :: b :: r) :=
+      ⟨.inr (mem_filter_out.mpr ⟨hbx, hbx'⟩), isWalk_filter_out _ hxq hw.2⟩
+    have hhead : ∀ v, (b :: r).head? = some v → ((x, v) ∈ E ↔ (x, v) ∈ Ex) := by
+      intro v hv
+      have : b = v := by simpa using hv
+      subst this
+      rw [mem_filter_out]
+      exact ⟨fun h' => absurd hbx (hac.noTwoCycle _ _ h'), fun h' => h'.1⟩
+    exact (blocked_filter_out hx hnd _ hxq x hhead).mpr (h _ hw' hft hnodup)
+  · intro h p hw hft hnodup
+    obtain ⟨hh, hl⟩ := hft
+    match p, hh with
+    | [a], hh =>
+      have h1 : a = x := by simpa using hh
+      have h2 : a = y := by simpa using hl
+      exact absurd (h1.symm.trans h2) hxy
+    | a :: b :: r, hh =>
+      have h1 : a = x := by simpa using hh
+      subst h1
+      have hxq : a ∉ b :: r := (List.nodup_cons.mp hnodup).1
+      have hba : (b, a) ∈ E := by
+        rcases hw.1 with h' | h'
+        · exact absurd rfl (mem_filter_out.mp h').2
+        · exact (mem_filter_out.mp h').1
+      have hhead : ∀ v, (b :: r).head? = some v → ((a, v) ∈ E ↔ (a, v) ∈ cutOut E a) := by
+        intro v hv
+        have : b = v := by simpa using hv
+        subst this
+        rw [mem_filter_out]
+        exact ⟨fun h' => absurd hba (hac.noTwoCycle _ _ h'), fun h' => h'.1⟩
+      exact (blocked_filter_out hx hnd _ hxq a hhead).mp
+        (h _ (isWalk_mono hsub _ hw) ⟨rfl, hl⟩ hnodup ⟨b, r, rfl, hba⟩)
+
+end Backdoor
 
 end ZV.Dag
